@@ -19,7 +19,7 @@ use hpo::term::HpoGroup;
 use hpo::utils::Combinations;
 use hpo::{HpoSet, Ontology};
 use serde_json::{json, Value};
-use std::cell::RefCell;
+use std::cell::{Cell, RefCell};
 
 const ROOT: u32 = 1;
 /// (child, parent) links of the ontology; terms 1..=11
@@ -272,6 +272,15 @@ enum Family {
     NegHalf,
     /// as Spread minus an offset that puts every pair below zero
     NegAll,
+    /// the Spread values times 2^-30 / 2^-60 / 2^-100 (all far below f32::EPSILON, still exact and distinct)
+    Tiny30,
+    Tiny60,
+    Tiny100,
+    /// the Spread values times 2^60
+    Huge60,
+    /// the 2 closest pairs / the ceil(m/2) closest pairs at the Spread values times 2^-40 (tiny), the others ordinary
+    MixedTiny2,
+    MixedTinyHalf,
 }
 
 impl Family {
@@ -284,14 +293,34 @@ impl Family {
             Family::NegOne => "closest-negative",
             Family::NegHalf => "half-negative",
             Family::NegAll => "all-negative",
+            Family::Tiny30 => "scaled-2^-30",
+            Family::Tiny60 => "scaled-2^-60",
+            Family::Tiny100 => "scaled-2^-100",
+            Family::Huge60 => "scaled-2^60",
+            Family::MixedTiny2 => "two-closest-tiny",
+            Family::MixedTinyHalf => "closest-half-tiny",
         }
     }
     fn scale(self, m: usize) -> f64 {
         match self {
             Family::Spread | Family::InfTop | Family::NegOne | Family::NegHalf | Family::NegAll => (1u64 << (m + 6)) as f64,
+            Family::Tiny30 => (1u64 << (m + 6)) as f64 * 2f64.powi(30),
+            Family::Tiny60 => (1u64 << (m + 6)) as f64 * 2f64.powi(60),
+            Family::Tiny100 => (1u64 << (m + 6)) as f64 * 2f64.powi(100),
+            Family::Huge60 => (1u64 << (m + 6)) as f64 * 2f64.powi(-60),
+            Family::MixedTiny2 | Family::MixedTinyHalf => (1u64 << (m + 6)) as f64 * 2f64.powi(40),
             Family::Linear => 64.0,
             Family::Geometric => 65536.0,
         }
+    }
+}
+
+/// Number of pairs (the closest ones) that a mixed family keeps at tiny magnitude (times 2^-40).
+fn tiny_ranks(fam: Family, m: usize) -> usize {
+    match fam {
+        Family::MixedTiny2 => 2.min(m),
+        Family::MixedTinyHalf => (m + 1) / 2,
+        _ => 0,
     }
 }
 
@@ -320,7 +349,15 @@ fn negative_offset(k: usize, m: usize) -> u64 {
 
 fn base_int(fam: Family, rank: usize, m: usize) -> u64 {
     match fam {
-        Family::Spread | Family::InfTop | Family::NegOne | Family::NegHalf | Family::NegAll => (((rank as u64) + 1) << m) | (1u64 << rank),
+        Family::Spread | Family::InfTop | Family::NegOne | Family::NegHalf | Family::NegAll | Family::Tiny30 | Family::Tiny60 | Family::Tiny100 | Family::Huge60 => (((rank as u64) + 1) << m) | (1u64 << rank),
+        Family::MixedTiny2 | Family::MixedTinyHalf => {
+            let spread = (((rank as u64) + 1) << m) | (1u64 << rank);
+            if rank < tiny_ranks(fam, m) {
+                spread
+            } else {
+                spread << 40
+            }
+        }
         Family::Linear => rank as u64 + 1,
         Family::Geometric => 3u64.pow(rank as u32),
     }
@@ -514,13 +551,66 @@ fn content_of(set: &HpoSet<'_>, allowed: u32, rec: &mut Rec) -> u32 {
 
 type Merge = (usize, usize, u32, usize); // lhs, rhs, distance bits, len
 
+/// How the input sets are handed to `Linkage::*` (they take any `IntoIterator<Item = HpoSet>`): the
+/// adaptors differ in what `size_hint()` promises, the sets and their order are the same.
+#[derive(Clone, Copy, PartialEq, Eq, Debug)]
+enum Adaptor {
+    /// a `Vec<HpoSet>` (exact size hint)
+    Vec,
+    /// `vec.into_iter().filter(|_| true)` (lower bound 0)
+    Filter,
+    /// two nested Vecs (first half, second half) flattened (lower bound 0)
+    Flatten,
+    /// `std::iter::from_fn` (no bounds at all)
+    FromFn,
+    /// `first_half.into_iter().filter(|_| true).chain(second_half_vec)` (lower bound = length of the second half)
+    ChainFilterVec,
+}
+
+const ADAPTORS: [Adaptor; 5] = [Adaptor::Vec, Adaptor::Filter, Adaptor::Flatten, Adaptor::FromFn, Adaptor::ChainFilterVec];
+
+impl Adaptor {
+    fn name(self) -> &'static str {
+        match self {
+            Adaptor::Vec => "Vec",
+            Adaptor::Filter => "into_iter().filter(|_| true)",
+            Adaptor::Flatten => "nested Vecs flattened",
+            Adaptor::FromFn => "std::iter::from_fn",
+            Adaptor::ChainFilterVec => "filter(..).chain(Vec)",
+        }
+    }
+    /// Rust expression handing over `sets: Vec<HpoSet>` (for the reproduction snippet).
+    fn rust(self) -> &'static str {
+        match self {
+            Adaptor::Vec => "sets",
+            Adaptor::Filter => "sets.into_iter().filter(|_| true)",
+            Adaptor::Flatten => "{ let mut a = sets; let b = a.split_off(a.len() / 2); vec![a, b].into_iter().flatten() }",
+            Adaptor::FromFn => "{ let mut it = sets.into_iter(); std::iter::from_fn(move || it.next()) }",
+            Adaptor::ChainFilterVec => "{ let mut a = sets; let b = a.split_off((a.len() + 1) / 2); a.into_iter().filter(|_| true).chain(b) }",
+        }
+    }
+}
+
+fn link<'a, T, F>(method: Method, sets: T, cb: F) -> Linkage<'a>
+where
+    T: IntoIterator<Item = HpoSet<'a>>,
+    F: Fn(Combinations<HpoSet<'_>>) -> Vec<f32>,
+{
+    match method {
+        Method::Single => Linkage::single(sets, cb),
+        Method::Complete => Linkage::complete(sets, cb),
+        Method::Average => Linkage::average(sets, cb),
+        Method::Union => Linkage::union(sets, cb),
+    }
+}
+
 struct Obs {
     cluster: Vec<Merge>,
     into_cluster: Vec<Merge>,
     indicies: Vec<usize>,
 }
 
-fn run_lib(ont: &Ontology, inp: &Inputs, method: Method, table: &Table, rec: &RefCell<Rec>) -> Result<Obs, String> {
+fn run_lib(ont: &Ontology, inp: &Inputs, method: Method, table: &Table, rec: &RefCell<Rec>, adaptor: Adaptor) -> Result<Obs, String> {
     let n = inp.n();
     let cb = |combs: Combinations<HpoSet<'_>>| -> Vec<f32> {
         let mut rec = rec.borrow_mut();
@@ -586,20 +676,36 @@ fn run_lib(ont: &Ontology, inp: &Inputs, method: Method, table: &Table, rec: &Re
         out
     };
     guard(|| {
-        let sets = inp.sets.iter().map(|&s| {
-            let mut g = HpoGroup::new();
-            let mut r = s;
-            while r != 0 {
-                g.insert(r.trailing_zeros());
-                r &= r - 1;
+        let sets: Vec<HpoSet<'_>> = inp
+            .sets
+            .iter()
+            .map(|&s| {
+                let mut g = HpoGroup::new();
+                let mut r = s;
+                while r != 0 {
+                    g.insert(r.trailing_zeros());
+                    r &= r - 1;
+                }
+                HpoSet::new(ont, g)
+            })
+            .collect();
+        let l = match adaptor {
+            Adaptor::Vec => link(method, sets, &cb),
+            Adaptor::Filter => link(method, sets.into_iter().filter(|_| true), &cb),
+            Adaptor::Flatten => {
+                let mut a = sets;
+                let b = a.split_off(a.len() / 2);
+                link(method, vec![a, b].into_iter().flatten(), &cb)
             }
-            HpoSet::new(ont, g)
-        });
-        let l = match method {
-            Method::Single => Linkage::single(sets, &cb),
-            Method::Complete => Linkage::complete(sets, &cb),
-            Method::Average => Linkage::average(sets, &cb),
-            Method::Union => Linkage::union(sets, &cb),
+            Adaptor::FromFn => {
+                let mut it = sets.into_iter();
+                link(method, std::iter::from_fn(move || it.next()), &cb)
+            }
+            Adaptor::ChainFilterVec => {
+                let mut a = sets;
+                let b = a.split_off((a.len() + 1) / 2);
+                link(method, a.into_iter().filter(|_| true).chain(b), &cb)
+            }
         };
         let cluster: Vec<Merge> = l.cluster().map(|c| (c.lhs(), c.rhs(), c.distance().to_bits(), c.len())).collect();
         let indicies = l.indicies();
@@ -876,7 +982,7 @@ fn check(inp: &Inputs, method: Method, obs: &Obs, rf: &RefRun, rec: &Rec) -> Opt
     None
 }
 
-fn rust_snippet_subsets(f: &Facts, inp: &Inputs, method: Method, t: &SubsetTable) -> String {
+fn rust_snippet_subsets(f: &Facts, inp: &Inputs, method: Method, t: &SubsetTable, adaptor: Adaptor) -> String {
     let mut s = String::new();
     s.push_str("use hpo::{HpoSet, stats::Linkage, term::HpoGroup, utils::Combinations};\n");
     s.push_str(&f.to_rust(false));
@@ -890,15 +996,15 @@ fn rust_snippet_subsets(f: &Facts, inp: &Inputs, method: Method, t: &SubsetTable
     s.push_str("let dist = |c: Combinations<HpoSet<'_>>| -> Vec<f32> { c.map(|(a, b)| {\n");
     s.push_str("    println!(\"callback: {:?} (len {}) vs {:?} (len {})\", ids(a), a.len(), ids(b), b.len());\n");
     s.push_str("    (ints[code(a)][code(b)] as f64 / 262144.0) as f32\n}).collect() };\n");
-    s.push_str("let sets = inputs.iter().map(|ts| { let mut g = HpoGroup::new(); for t in ts { g.insert(*t); } HpoSet::new(&ont, g) });\n");
-    s.push_str(&format!("let l = Linkage::{}(sets, dist);\n", method.name()));
+    s.push_str("let sets: Vec<HpoSet<'_>> = inputs.iter().map(|ts| { let mut g = HpoGroup::new(); for t in ts { g.insert(*t); } HpoSet::new(&ont, g) }).collect();\n");
+    s.push_str(&format!("let l = Linkage::{}({}, dist);\n", method.name(), adaptor.rust()));
     s.push_str("for c in l.cluster() { println!(\"{} {} {} {}\", c.lhs(), c.rhs(), c.distance(), c.len()); }\nprintln!(\"{:?}\", l.indicies());\n");
     s
 }
 
-fn rust_snippet(f: &Facts, inp: &Inputs, method: Method, table: &Table) -> String {
+fn rust_snippet(f: &Facts, inp: &Inputs, method: Method, table: &Table, adaptor: Adaptor) -> String {
     if let Some(t) = &table.subsets {
-        return rust_snippet_subsets(f, inp, method, t);
+        return rust_snippet_subsets(f, inp, method, t, adaptor);
     }
     let n = inp.n();
     let mut s = String::new();
@@ -930,8 +1036,8 @@ fn rust_snippet(f: &Facts, inp: &Inputs, method: Method, table: &Table) -> Strin
     s.push_str(&format!("    let idx: Vec<(usize, usize)> = (0..{n}usize).flat_map(|i| (i + 1..{n}usize).map(move |j| (i, j))).collect();\n"));
     s.push_str("    if call == 0 && pairs.len() == idx.len() { return idx.iter().map(|&(i, j)| value(&first_atoms[i], &first_atoms[j])).collect(); }\n");
     s.push_str("    pairs.iter().map(|(a, b)| value(a, b)).collect()\n};\n");
-    s.push_str("let sets = inputs.iter().map(|ts| { let mut g = HpoGroup::new(); for t in ts { g.insert(*t); } HpoSet::new(&ont, g) });\n");
-    s.push_str(&format!("let l = Linkage::{}(sets, dist);\n", method.name()));
+    s.push_str("let sets: Vec<HpoSet<'_>> = inputs.iter().map(|ts| { let mut g = HpoGroup::new(); for t in ts { g.insert(*t); } HpoSet::new(&ont, g) }).collect();\n");
+    s.push_str(&format!("let l = Linkage::{}({}, dist);\n", method.name(), adaptor.rust()));
     s.push_str("for c in l.cluster() { println!(\"{} {} {} {}\", c.lhs(), c.rhs(), c.distance(), c.len()); }\nprintln!(\"{:?}\", l.indicies());\n");
     s
 }
@@ -944,6 +1050,19 @@ struct Env {
     ont: Ontology,
     facts: Facts,
     rec: RefCell<Rec>,
+    /// how the next clustering hands in its inputs
+    adaptor: Cell<Adaptor>,
+    /// set in the dedicated adaptor spaces: no rotation
+    fixed_adaptor: Cell<Option<Adaptor>>,
+}
+
+impl Env {
+    /// Rotation through the adaptors: chosen by the case number and a counter inside the case, so it is the
+    /// same in every process and in a replay.
+    fn rotate(&self, ctx: &Ctx, within_case: u64) {
+        let case = ctx.spaces.last().map(|s| s.1.cases).unwrap_or(0);
+        self.adaptor.set(self.fixed_adaptor.get().unwrap_or(ADAPTORS[((case + within_case) % ADAPTORS.len() as u64) as usize]));
+    }
 }
 
 #[derive(Default)]
@@ -959,18 +1078,19 @@ fn one(ctx: &mut Ctx, env: &Env, inp: &Inputs, rank_of_pair: &[usize], table: &T
     tally.runs += 1;
     env.rec.borrow_mut().clear();
     let rf = reference(inp, method, table);
-    let got = run_lib(&env.ont, inp, method, table, &env.rec);
+    let adaptor = env.adaptor.get();
+    let got = run_lib(&env.ont, inp, method, table, &env.rec, adaptor);
     let rec = env.rec.borrow();
     // the context keeps the detail of the first occurrence of a (site, signature) only: build it only then
     let detail = |extra: Value| {
         let exp: Vec<Value> = rf.merges.iter().map(|&(a, b, v, s)| json!({"pair": [a, b], "distance": fj(v), "len": s})).collect();
         json!({
-            "n": n, "method": method.name(), "input_sets (terms)": inp.to_json(),
+            "n": n, "method": method.name(), "input_sets (terms)": inp.to_json(), "inputs_handed_in_as": adaptor.name(),
             "rank_of_pair (pairs of the involved atoms in order (0,1),(0,2),..)": rank_of_pair, "atoms (term id; 0/12 = an empty set)": inp.atoms,
             "base_distances": table.base_json(inp),
             "reference_merges": exp, "reference_first_tie_at_step": rf.tie_at,
             "observed": extra,
-            "rust": rust_snippet(&env.facts, inp, method, table),
+            "rust": rust_snippet(&env.facts, inp, method, table, adaptor),
         })
     };
     match got {
@@ -1110,6 +1230,7 @@ fn exhaustive(ctx: &mut Ctx, env: &Env, inp: &Inputs, fam: Family, tag: &str, sp
         let mut orders = 0u64;
         loop {
             order[m - tail..].copy_from_slice(&rest);
+            env.rotate(ctx, orders);
             one_order(ctx, env, inp, &order, fam, methods, &mut tally);
             orders += 1;
             if !next_permutation(&mut rest) {
@@ -1211,7 +1332,8 @@ fn near_orders(ctx: &mut Ctx, env: &Env, n: usize, d: usize, methods: &[Method])
         let q = perm_of_inversion_table(code);
         let mut tally = Tally::default();
         let mut last = vec![];
-        for (_, base) in &bases {
+        for (bi, (_, base)) in bases.iter().enumerate() {
+            env.rotate(ctx, bi as u64);
             let mut rank_of_pair = vec![0usize; m];
             for r in 0..m {
                 rank_of_pair[base[q[r]]] = r;
@@ -1291,17 +1413,22 @@ fn history_ints(n: usize, hist: &[(usize, usize)]) -> [[u64; MAX_N]; MAX_N] {
 /// as usual (the harness additionally asserts that it reproduces the chosen history).
 /// `negative_steps` = k > 0: an offset of k*256 + 128 (in the table's integer units) is subtracted, so the
 /// distances of the first k merge steps are negative (k = n-1: all of them).
-fn histories(ctx: &mut Ctx, env: &Env, n: usize, negative_steps: usize) {
+/// `scale_exp` != 0: every distance is additionally multiplied by 2^scale_exp.
+fn histories(ctx: &mut Ctx, env: &Env, n: usize, negative_steps: usize, scale_exp: i32) {
     let inp = Inputs::flat(n);
     let pairs = pair_list(n);
     let total = count_histories(n);
     let offset = if negative_steps == 0 { 0.0 } else { (negative_steps * 256 + 128) as f64 };
-    let label = if negative_steps == 0 { String::new() } else { format!("-negative-first-{negative_steps}-steps") };
+    let mut label = if negative_steps == 0 { String::new() } else { format!("-negative-first-{negative_steps}-steps") };
+    if scale_exp != 0 {
+        label.push_str(&format!("-scaled-2^{scale_exp}"));
+    }
+    let scale = 2048.0 * 2f64.powi(-scale_exp);
     ctx.space(
         &format!("n{n}/all-merge-histories{label}/all-methods"),
         &format!(
             "n = {n}: all {total} merge histories (at every step any pair of the live clusters), each forced by a tie-free perturbed ultrametric distance table{}, x 4 methods; one case = the 18 histories sharing the first {} merges",
-            if negative_steps == 0 { String::new() } else { format!(" shifted so that the distances of the first {negative_steps} of the {} merge steps are negative", n - 1) },
+            format!("{}{}", if negative_steps == 0 { String::new() } else { format!(" shifted so that the distances of the first {negative_steps} of the {} merge steps are negative", n - 1) }, if scale_exp == 0 { String::new() } else { format!(" with every distance multiplied by 2^{scale_exp}") }),
             n - 4
         ),
     );
@@ -1319,13 +1446,14 @@ fn histories(ctx: &mut Ctx, env: &Env, n: usize, negative_steps: usize) {
         let mut last: Vec<(usize, usize)> = vec![];
         for_each_history(n, n - 1, head, &mut |hist| {
             let ints = history_ints(n, hist);
-            let mut table = Table::from_ints(&inp, &ints, 2048.0);
+            let mut table = Table::from_ints(&inp, &ints, scale);
             table.offset = offset;
             // the rank order this table realises (for the records)
             let vals: Vec<u64> = pairs.iter().map(|&(a, b)| ints[a][b]).collect();
             let mut sorted = vals.clone();
             sorted.sort_unstable();
             let rank_of_pair: Vec<usize> = vals.iter().map(|v| sorted.iter().position(|x| x == v).expect("C17 harness: value")).collect();
+            env.rotate(ctx, count);
             for &method in &METHODS {
                 let rf = reference(&inp, method, &table);
                 let same = rf.tie_at.is_none() && rf.merges.iter().map(|m| (m.0, m.1)).collect::<Vec<_>>() == hist;
@@ -1337,7 +1465,7 @@ fn histories(ctx: &mut Ctx, env: &Env, n: usize, negative_steps: usize) {
         });
         assert_eq!(count, 18, "C17 harness: completions of a history head");
         flush(ctx, n, &format!("merge-histories{label}"), true, count, &tally);
-        let mut last_table = Table::from_ints(&inp, &history_ints(n, &last), 2048.0);
+        let mut last_table = Table::from_ints(&inp, &history_ints(n, &last), scale);
         last_table.offset = offset;
         ctx.sample(|| json!({"n": n, "histories_in_case": count, "last_history (joined cluster indices per step; step s forms cluster n+s)": last,
             "its_base_distances": last_table.base_json(&inp)}));
@@ -1413,6 +1541,8 @@ pub fn run(ctx: &mut Ctx) {
         "the sign of the user distance is not restricted: the spaces named *-negative-* shift the same dyadic values by an integer offset (applied after the mean, which is affine) so that some or all distances are below zero; the reported merge distances must be those negative values".into(),
         "input sets may overlap, be nested or equal (spaces named overlapping-inputs): the distance is then a plain look-up keyed by the two contents (28 distinct exact values for the unordered pairs of the 7 non-empty subsets of a 3-term universe, equal contents included); for `union` the merged set must be the set union; equal-content inputs produce equal distances, counted as ties when minimal".into(),
         "every set handed to the callback (any space, any invocation) must iterate its terms strictly ascending without repetition and report len() = number of distinct terms (an HpoSet is a set of unique terms)".into(),
+        "the linkage functions take any IntoIterator of sets: how the sets are handed in (Vec, filter, flatten, from_fn, chain - different size hints) must not matter; every space rotates through these adaptors by case number, the input-adaptors spaces run all of them".into(),
+        "the magnitude of the distances is not restricted: tables scaled by 2^-30 .. 2^-100 (far below f32::EPSILON), by 2^60, and tables mixing tiny and ordinary distances must be clustered by exact comparison like any other".into(),
         "n = 0 and n = 1 are don't-care: executed under catch_unwind, nothing is demanded".into(),
         "ontology: Builder, build_minimal; root 1; 2,3,4,6,8,9,10,11 children of 1; 5 child of 2; 7 child of 5; the main spaces use singletons of the pairwise unrelated terms 2,3,4,6,8,9,10".into(),
     ];
@@ -1433,11 +1563,14 @@ pub fn run(ctx: &mut Ctx) {
             return;
         }
     };
-    let env = Env { ont, facts, rec: RefCell::new(Rec::default()) };
+    let env = Env { ont, facts, rec: RefCell::new(Rec::default()), adaptor: Cell::new(Adaptor::Vec), fixed_adaptor: Cell::new(None) };
     for n in 2..=MAX_N_RANKS {
         selfcheck_values(n_pairs(n), Family::Spread);
         selfcheck_values(n_pairs(n), Family::Linear);
         if n <= 5 {
+            for fam in [Family::Tiny30, Family::Tiny60, Family::Tiny100, Family::Huge60, Family::MixedTiny2, Family::MixedTinyHalf] {
+                selfcheck_values(n_pairs(n), fam);
+            }
             selfcheck_values(n_pairs(n), Family::Geometric);
         }
     }
@@ -1482,6 +1615,43 @@ pub fn run(ctx: &mut Ctx) {
     negative(ctx, 3, &[Family::NegOne, Family::NegHalf, Family::NegAll]);
     negative(ctx, 4, &[Family::NegOne, Family::NegHalf, Family::NegAll]);
 
+    // ---- magnitudes: the same exact tables scaled by 2^-30, 2^-60, 2^-100 (all far below f32::EPSILON) and 2^60, and
+    //      mixed tables whose 2 / ceil(m/2) closest pairs are tiny (x 2^-40) while the others are ordinary
+    let scaled = |ctx: &mut Ctx, n: usize, fams: &[Family]| {
+        let m = n_pairs(n);
+        let total: u64 = (1..=m as u64).product();
+        for &fam in fams {
+            let what = match fam {
+                Family::MixedTiny2 | Family::MixedTinyHalf => format!("the {} closest of the {m} pairs at 2^-40 times their ordinary value, the others ordinary", tiny_ranks(fam, m)),
+                _ => format!("every distance {}", fam.name()),
+            };
+            ctx.space(
+                &format!("n{n}/all-rank-orders/{}-distances/all-methods", fam.name()),
+                &format!("n = {n}: all {total} rank orders of the {m} pairwise distances, {what} (exact, distinct f32 values) x 4 methods"),
+            );
+            exhaustive(ctx, &env, &Inputs::flat(n), fam, &format!("{}-values", fam.name()), true, &METHODS);
+        }
+    };
+    scaled(ctx, 2, &[Family::Tiny30, Family::Tiny100, Family::Huge60]);
+    scaled(ctx, 3, &[Family::Tiny30, Family::Tiny60, Family::Tiny100, Family::Huge60, Family::MixedTiny2]);
+    scaled(ctx, 4, &[Family::Tiny30, Family::Tiny60, Family::Tiny100, Family::Huge60, Family::MixedTiny2, Family::MixedTinyHalf]);
+
+    // ---- how the inputs are handed in: every adaptor on every rank order for n <= 4 (all other spaces rotate
+    //      through the adaptors by case number)
+    for n in 2..=4usize {
+        let m = n_pairs(n);
+        let total: u64 = (1..=m as u64).product();
+        ctx.space(
+            &format!("n{n}/all-rank-orders/input-adaptors/all-methods"),
+            &format!("n = {n}: all {total} rank orders of the {m} pairwise distances x 5 ways of handing in the same sets (Vec; into_iter().filter(|_| true); two nested Vecs flattened; std::iter::from_fn; filter(..).chain(Vec)) x 4 methods"),
+        );
+        for a in ADAPTORS {
+            env.fixed_adaptor.set(Some(a));
+            exhaustive(ctx, &env, &Inputs::flat(n), Family::Spread, "spread-values", n >= 3, &METHODS);
+        }
+        env.fixed_adaptor.set(None);
+    }
+
     // ---- overlapping inputs: every sequence of n non-empty subsets of a 3-term universe (equal, nested, overlapping,
     //      disjoint inputs), distance = look-up by the two contents, 4 fixed tables x 4 methods
     for n in 2..=(if thorough { 4usize } else { 3 }) {
@@ -1508,6 +1678,7 @@ pub fn run(ctx: &mut Ctx) {
                 let inp = Inputs::overlapping(&sets);
                 let mut tally = Tally::default();
                 for (v, table) in tables.iter().enumerate() {
+                    env.rotate(ctx, v as u64);
                     for &method in &METHODS {
                         one(ctx, &env, &inp, &[v], table, method, &mut tally);
                     }
@@ -1527,6 +1698,7 @@ pub fn run(ctx: &mut Ctx) {
         }
         let inp = Inputs::flat(2);
         let table = Table::fixed2(&inp, v);
+        env.rotate(ctx, 0);
         let mut tally = Tally::default();
         for &method in &METHODS {
             one(ctx, &env, &inp, &[0], &table, method, &mut tally);
@@ -1593,7 +1765,7 @@ pub fn run(ctx: &mut Ctx) {
             let inp = Inputs::flat(n);
             let table = Table::new(&inp, &[], Family::Spread);
             env.rec.borrow_mut().clear();
-            match run_lib(&env.ont, &inp, method, &table, &env.rec) {
+            match run_lib(&env.ont, &inp, method, &table, &env.rec, Adaptor::Vec) {
                 Ok(obs) => {
                     ctx.bump("dontcare_n01_returned", 1);
                     ctx.sample(|| json!({"n": n, "method": method.name(), "merges": obs.cluster.len(), "indicies": obs.indicies, "callback_invocations": env.rec.borrow().calls}));
@@ -1622,11 +1794,12 @@ pub fn run(ctx: &mut Ctx) {
     families(ctx, 4);
 
     // ---- every merge history (tree shape x merge order) for n = 6, 7, forced by perturbed ultrametric tables; n = 8 thorough (below)
-    histories(ctx, &env, 6, 0);
-    histories(ctx, &env, 7, 0);
+    histories(ctx, &env, 6, 0, 0);
+    histories(ctx, &env, 7, 0, 0);
+    histories(ctx, &env, 6, 0, -60);
     // the same with negative distances: the first 2 merge steps / all 5 merge steps below zero
-    histories(ctx, &env, 6, 2);
-    histories(ctx, &env, 6, 5);
+    histories(ctx, &env, 6, 2, 0);
+    histories(ctx, &env, 6, 5, 0);
 
     // ---- n = 5: all 10! rank orders
     for &method in &METHODS {
@@ -1637,11 +1810,13 @@ pub fn run(ctx: &mut Ctx) {
         families(ctx, 5);
         infinite(ctx, 5);
         negative(ctx, 5, &[Family::NegHalf, Family::NegAll]);
+        scaled(ctx, 5, &[Family::Tiny100, Family::MixedTinyHalf]);
         // 5 atoms = 10 base distances: 10! rank orders each
         with_empties(ctx, 5, 1, &[2, 5, 3, 4], "one-empty-input");
-        histories(ctx, &env, 8, 0);
-        histories(ctx, &env, 7, 3);
-        histories(ctx, &env, 7, 6);
+        histories(ctx, &env, 8, 0, 0);
+        histories(ctx, &env, 7, 3, 0);
+        histories(ctx, &env, 7, 6, 0);
+        histories(ctx, &env, 7, 0, -100);
         related(ctx, 4, 5);
     }
 
